@@ -162,9 +162,10 @@ def main(argv=None):
 
     # ---- 2. all condition shards (+ one reachability twin per condition), 16-way
     jobs = []
+    only_fn = os.environ.get('PBSYM_ONLY_FN')     # development aid: restrict a run to one condition (never registered)
     for c in H.CONDITIONS:
         t = c['tiers'].get(tier) or c['tiers']['quick']
-        if t is None:
+        if t is None or (only_fn and c['fn'] != only_fn):
             continue
         shards = t.get('shards') or [{}]
         for sh in shards:
